@@ -3,6 +3,7 @@ package main
 import (
 	"fmt"
 	"go/token"
+	"go/types"
 	"sort"
 	"strings"
 
@@ -30,6 +31,11 @@ func stampArgAlloc(v ssa.Value) ssa.Value {
 		return x
 	case *ssa.FreeVar:
 		return x
+	case *ssa.Parameter:
+		// a part that is handed a pointer to the stamp: the pointer stands for the variable
+		if _, isPtr := x.Type().Underlying().(*types.Pointer); isPtr {
+			return x
+		}
 	case *ssa.FieldAddr: // the stamp kept as a field of a small private struct
 		if _, ok := privateFieldCell(x); ok {
 			return x
@@ -272,10 +278,28 @@ func runC15(c *Ctx) {
 			okAll := ok
 			if ok {
 				want := map[string]string{"Height": "Height", "Hash": "Hash", "Timestamp": "Time"}
+				// the stamp variable, or — when it is filled from a conversion part (`tip := stampFromMeta(b)`) — the literal
+				// that part returns
+				holderFn, holder := cb, al
+				for _, st := range storesTo(al) {
+					if hc, isCall := stripConv(st.Val).(*ssa.Call); isCall && st.Addr == ssa.Value(al) {
+						if h := hc.Call.StaticCallee(); h != nil && fnPkgPath(h) == fnPkgPath(cb) && len(h.Blocks) > 0 {
+							for _, hb := range h.Blocks {
+								if r, isRet := hb.Instrs[len(hb.Instrs)-1].(*ssa.Return); isRet && len(r.Results) == 1 {
+									if ld, isLd := stripConv(r.Results[0]).(*ssa.UnOp); isLd {
+										if ha, isAl := ld.X.(*ssa.Alloc); isAl {
+											holderFn, holder = h, ha
+										}
+									}
+								}
+							}
+						}
+					}
+				}
 				for f, src := range want {
 					found := false
-					for _, st := range storesToFieldOwner(cb, "BlockStamp", f) {
-						if st.Addr.(*ssa.FieldAddr).X != ssa.Value(al) {
+					for _, st := range storesToFieldOwner(holderFn, "BlockStamp", f) {
+						if st.Addr.(*ssa.FieldAddr).X != ssa.Value(holder) {
 							continue
 						}
 						sl := &Slicer{P: p}
